@@ -678,6 +678,40 @@ def real_scrape(doc, robots, refresh=None):
     return ctxs, flags
 
 
+def all_scrapers_linked(doc, url):
+    """The links that WOULD BE FOLLOWED when the document at `url` goes through every scraper the application installs
+    (HTML with robots handling, CSS, JavaScript), as ProcessingRule.scrape_document runs them."""
+    from wpull.document.htmlparse.html5lib_ import HTMLParser
+    from wpull.scraper.base import DemuxDocumentScraper
+    from wpull.scraper.css import CSSScraper
+    from wpull.scraper.html import HTMLScraper, ElementWalker
+    from wpull.scraper.javascript import JavaScriptScraper
+    from wpull.protocol.http.request import Request, Response
+    from wpull.body import Body
+    css, js = CSSScraper(), JavaScriptScraper()
+    demux = DemuxDocumentScraper([HTMLScraper(HTMLParser(), ElementWalker(css_scraper=css, javascript_scraper=js), robots=True), css, js])
+    request = Request(url)
+    response = Response(200, 'OK')
+    response.fields['Content-Type'] = 'text/html'
+    response.body = Body()
+    response.body.write(doc)
+    response.body.seek(0)
+    response.request = request
+    try:
+        info = demux.scrape_info(request, response)
+    finally:
+        response.body.close()
+    out = set()
+    for scraper, result in (info or {}).items():
+        if result:
+            out |= {(type(scraper).__name__, c.link) for c in result.link_contexts if c.linked}
+    return sorted(out)
+
+
+NF_URLS = ['http://a.test/page.html', 'http://a.test/docs/node.js/changes.html', 'http://a.test/download/jquery.js.html', 'http://a.test/theme.css/about.html',
+           'http://a.test/x.js', 'http://a.test/feed.xml.html']
+
+
 def stream_nofollow(ctx, n):
     rng = ctx.subrng('nofollow')
     reqs, meta = [], []
@@ -710,6 +744,11 @@ def stream_nofollow(ctx, n):
             followed = sorted(u for u, i, l in kept if l)
             if followed:
                 ctx.fail('nofollow-ignored', 'html-scraper', case, 'the page declares nofollow but these links would be followed: %s' % followed[:4])
+            # ... and no OTHER scraper the application runs over the same document may offer them, whatever the URL looks like
+            url = NF_URLS[hash(doc) % len(NF_URLS)] if isinstance(doc, bytes) else NF_URLS[0]
+            others = all_scrapers_linked(doc, url)
+            if others:
+                ctx.fail('nofollow-ignored', 'other-scraper', dict(case, url=url), 'the page at %s declares nofollow but these links would be followed: %s' % (url, others[:4]))
         else:
             if not anchors <= kept_urls:
                 ctx.fail('links-dropped', 'html-scraper', case, 'no nofollow in force but links were dropped: %s' % sorted(anchors - kept_urls)[:4])
